@@ -175,3 +175,12 @@ func NativeAtomicDest(path string) {
 // NativeEnd (INTRINSIC: no-op) marks the end of the operation under test in
 // the system-call trace.
 func NativeEnd() { _, _ = os.Stat("/VERIF-MARK-END") }
+
+// Abs maps an abstract absolute path into the sandbox (identity under the
+// engine), so that arbitrary absolute paths mean the same in both runs.
+func Abs(p string) string {
+	if Symbolic() || sandboxDir == "" || !strings.HasPrefix(p, "/") {
+		return p
+	}
+	return sandboxDir + p
+}
